@@ -86,6 +86,12 @@ func (a *agg) add(o outcome) {
 		a.known[k] += v
 	}
 	a.configs[configName(o.s)]++
+	if o.s.Clock.Zone != "" && o.s.Property == "C09" {
+		a.faults["named_zone"]++
+	}
+	if len(o.s.Tasks) >= 9 {
+		a.faults["crowd_of_9_to_12_callers"]++
+	}
 	a.steps += r.Steps
 	a.elig += r.Eligible
 	a.switches += r.Switches
@@ -164,6 +170,14 @@ func (a *agg) write(tier string, seed uint64, wall float64, nviol int, streams i
 				fk[k] = 0
 			}
 		}
+		fk["named_zone"] = a.probes["process_zone_named"]
+		fk["concurrent_callers_run"] = a.probes["concurrent_callers_run"]
+		fk["clock_fault_while_another_caller_is_inside_a_lookup"] = a.probes["clock_fault_while_another_caller_is_inside_a_lookup"]
+	case "C14":
+		fk["named_zone"] = a.probes["process_zone_named"]
+		fk["fixups_back_to_back_without_a_query"] = a.probes["fixes_back_to_back_without_a_query"]
+		fk["recovered_panic_between_fixups"] = a.probes["walk_over_unlabelled_record_panicked_and_recovered"]
+		fk["malformed_query_recovered"] = a.probes["bad_key_recovered"]
 	}
 	perHour := 0.0
 	if wall > 0 {
@@ -185,7 +199,8 @@ func (a *agg) write(tier string, seed uint64, wall float64, nviol int, streams i
 		"oracle_comparisons":            a.checks,
 		"operations_executed":           a.opsDone,
 		"memory_locations_monitored":    a.locs,
-		"fault_kinds_fired":             a.faults,
+		"fault_kinds_fired":             fk,
+		"fault_kinds_note":              faultNote[a.p.id],
 		"reach_probes":                  a.probes,
 		"probes_stuck_at_zero":          warn,
 		"configurations":                a.configs,
@@ -213,7 +228,7 @@ func (a *agg) write(tier string, seed uint64, wall float64, nviol int, streams i
 }
 
 var faultNote = map[string]string{
-	"C09": "invalid_panic = operations with rejected/choking arguments executed and recovered inside scripts; stall = a task frozen at a scheduling point while others run; evict = operations of an evictor task on cold years; clock_jump = the simulated wall clock advanced by 61 s .. 1 day between two calls of a task; map_order = permuted map iterations (0 when the tree has no map range loop)",
-	"C10": "clock_jump / zone_change = the simulated wall clock or time.Local replaced between two lookups of a run; every run additionally starts from a PRNG-chosen clock, zone and per-read tick",
-	"C14": "no environment fault applies (single writer API, no I/O, no clock): 0 by construction; recovered malformed queries are counted under reach_probes.bad_key_recovered",
+	"C09": "invalid_panic = operations with rejected/choking arguments executed and recovered inside scripts; stall = a task frozen at a scheduling point while others run; evict = operations of an evictor task on cold years; clock_jump = the simulated wall clock advanced by 61 s .. 1 day between two calls of a task; map_order = permuted map iterations (0 when the tree has no map range loop); named_zone = runs whose process-local zone has daylight-saving rules; crowd_of_9_to_12_callers = runs with that many concurrent callers",
+	"C10": "clock_jump / zone_change = the simulated wall clock or time.Local replaced between two lookups of a run (in runs with concurrent callers: while the other callers are wherever the scheduler left them, clock_fault_while_another_caller_is_inside_a_lookup counts those that landed inside a lookup); named_zone = clocks whose zone has daylight-saving rules; every run additionally starts from a PRNG-chosen clock, zone and per-read tick",
+	"C14": "the holiday table's API has one writer, no I/O and no clock; what is injected is: named_zone = runs whose process-local zone has daylight-saving rules; fixups_back_to_back_without_a_query = history steps followed by the next fix-up with no query in between; recovered_panic_between_fixups = a working-day walk over a record without label that panicked and was recovered before the repairing fix-up; malformed_query_recovered = malformed keys whose panic was recovered mid-history",
 }
